@@ -964,7 +964,8 @@ impl<'a> G<'a> {
             "nowhere.inc".to_string()
         };
         w.push("include ");
-        w.lexeme("string", &format!("\"{}\"", name));
+        let escaped = name.replace('\\', "\\\\").replace('"', "\\\"");
+        w.lexeme("string", &format!("\"{}\"", escaped));
         w.push(";");
         let _ = file;
         self.pending_nested.push(at);
@@ -1702,7 +1703,12 @@ fn static_damage(r: &mut Rng, g: &mut Generated, profile: Profile) -> Option<&'s
                 if k == 0 {
                     first_at = at;
                     // only for a pristine file: the insertion point is then a statement start
-                    if n == 1 && !starts.is_empty() && !w.damage.iter().any(|d| d.path == path) {
+                    let at_token_boundary = token_spans.iter().any(|(s, _)| *s == at) || at == text.len();
+                    if n == 1
+                        && at_token_boundary
+                        && !starts.is_empty()
+                        && !w.damage.iter().any(|d| d.path == path)
+                    {
                         g3 = class.map(|c| (c.to_string(), at + off));
                     }
                 }
